@@ -383,7 +383,44 @@ func (a *Analyzer) onServing(n *nodeState, r *ev.Rec, on bool) {
 	if n == nil {
 		return
 	}
+	if on {
+		a.stat("serving-periods")
+		if n.serving {
+			a.find("C20", "two-instances-serve-one-directory", "", r.Q, "a second instance started serving the storage directory of %s (incarnation %d) while the first is still serving it", n.key, n.inc)
+		}
+	}
 	n.serving = on
+}
+
+// onExclusive judges the harness' attempts to use a storage directory that
+// is (or is not) being served (C20).
+func (a *Analyzer) onExclusive(n *nodeState, r *ev.Rec) {
+	if n == nil {
+		return
+	}
+	a.stat("exclusivity-attempts")
+	a.stat("exclusive:" + r.Op + ":" + firstWords(r.Err, 5))
+	const lock = "raft: lock file exists in storageDir"
+	const already = "raft: identity already set"
+	switch r.Op {
+	case "second-serve-while-serving", "setidentity-same-while-serving", "setidentity-other-while-serving":
+		if r.Err != lock {
+			a.find("C20", "directory-in-use-not-refused", "in-use:"+r.Op, r.Q, "%s on the directory of %s while it is being served returned %q, want ErrLockExists", r.Op, n.key, r.Err)
+		}
+	case "setidentity-same-after-stop":
+		if r.Err != "" {
+			a.find("C20", "setidentity-same-refused", "", r.Q, "SetIdentity with the stored identity on the idle directory of %s returned %q", n.key, r.Err)
+		}
+	case "setidentity-other-after-stop":
+		if r.Err != already {
+			a.find("C20", "identity-changed-or-change-not-refused", "", r.Q, "SetIdentity with another identity on the directory of %s returned %q, want ErrIdentityAlreadySet", n.key, r.Err)
+		}
+	case "identity-after-attempts":
+		// Idx / Term carry the (cid, nid) read back
+		if r.Idx != n.key.cid || r.Term != n.key.nid {
+			a.find("C20", "identity-changed", "", r.Q, "directory of %s now holds identity (%d, %d)", n.key, r.Idx, r.Term)
+		}
+	}
 }
 
 func (a *Analyzer) onServeExit(n *nodeState, r *ev.Rec) {
